@@ -1290,3 +1290,203 @@ Proof.
   split; [exact HW'|]. split; [rewrite Vo2, Vo1; exact HvL|]. split; [exact Hvs|]. split; [exact P2|].
   eapply Forall_impl; [|exact G2]. intros F2 E. rewrite E. constructor.
 Qed.
+
+(* ------------------------------------------------------------------ *)
+(* the outsiders and the pool *)
+
+(* what an outsider does: take any message of the pool, tick, or crash and restart *)
+Inductive oact := OStep (i : nat) (m : msg) | OTick (i : nat) | ORestart (i : nat) (r : raft).
+
+(* every message an outsider queues goes to the pool at once *)
+Definition oact_apply (st : list raft * list msg) (a : oact) : Res (list raft * list msg) :=
+  match a with
+  | OStep i m =>
+      match nth_error (fst st) i with
+      | None => Ok st
+      | Some o1 => x <- step o1 m ;;
+                  Ok (upd (fst st) i ((fst x) <| r_msgs := [] |>), snd st ++ r_msgs (fst x))
+      end
+  | OTick i =>
+      match nth_error (fst st) i with
+      | None => Ok st
+      | Some o1 => x <- tick o1 ;;
+                  Ok (upd (fst st) i ((fst x) <| r_msgs := [] |>), snd st ++ r_msgs (fst x))
+      end
+  | ORestart i r =>
+      match nth_error (fst st) i with
+      | None => Ok st
+      | Some o1 => Ok (upd (fst st) i r, snd st)
+      end
+  end.
+
+Fixpoint oacts_apply (st : list raft * list msg) (acts : list oact) : Res (list raft * list msg) :=
+  match acts with
+  | [] => Ok st
+  | a :: rest => st' <- oact_apply st a ;; oacts_apply st' rest
+  end.
+
+(* a restart: same id, pre-vote still on, a term not above the old one, not a leader,
+   nothing queued, no votes counted, a configuration in which the window members are a
+   quorum *)
+Definition restart_ok (O r : raft) : Prop :=
+  r_id r = r_id O /\ r_pre_vote r = true /\ r_term r <= r_term O /\ r_state r <> Leader /\
+  confq r /\ t_votes (r_prs r) = [] /\ r_msgs r = [].
+
+Definition oact_ok (st : list raft * list msg) (a : oact) : Prop :=
+  match a with
+  | OStep i m => In m (snd st) /\ snapq (m_snapshot m)
+  | OTick i => True
+  | ORestart i r => forall O, nth_error (fst st) i = Some O -> restart_ok O r
+  end.
+
+Fixpoint oacts_ok (st : list raft * list msg) (acts : list oact) : Prop :=
+  match acts with
+  | [] => True
+  | a :: rest => oact_ok st a /\ forall st', oact_apply st a = Ok st' -> oacts_ok st' rest
+  end.
+
+Definition OsInv (st : list raft * list msg) : Prop :=
+  Forall (fun O => ~ In (r_id O) (l :: ids) /\ OInv (r_id O) O) (fst st) /\ Forall PC (snd st).
+
+Lemma Forall_upd {A} (P : A -> Prop) : forall xs i a, Forall P xs -> P a -> Forall P (upd xs i a).
+Proof.
+  induction xs as [|x xs IH]; intros i a HF Ha; cbn [upd]; [constructor|].
+  apply Forall_cons_iff in HF. destruct HF as [H0 Hr].
+  destruct i; constructor; auto.
+Qed.
+
+Lemma OInv_empty_queue o r : OInv o r -> OInv o (r <| r_msgs := [] |>).
+Proof.
+  intros (I1 & I2 & I3 & I4 & I5 & I6 & I7). unfold OInv. cbn.
+  repeat split; try assumption; try apply I5. constructor.
+Qed.
+
+Lemma oact_OsInv st a st' : OsInv st -> oact_ok st a -> oact_apply st a = Ok st' -> OsInv st'.
+Proof.
+  intros [HO HP] Hok H. destruct a as [i m|i|i r]; cbn [oact_apply oact_ok] in *.
+  - destruct (nth_error (fst st) i) as [O|] eqn:E; [|injection H as <-; split; assumption].
+    ib H y Hy. injection H as <-. destruct y as [O' c']. cbn [fst snd].
+    destruct Hok as [Hin Hsq].
+    pose proof (nth_error_In _ _ E) as HOin. rewrite Forall_forall in HO.
+    destruct (HO O HOin) as [Hn HI].
+    rewrite Forall_forall in HP. pose proof (HP m Hin) as Pm.
+    pose proof (outsider_step (r_id O) Hn O m O' c' HI Pm Hsq Hy) as HI'.
+    pose proof HI' as (_ & Eid & _). split.
+    + apply Forall_upd; [apply Forall_forall; exact HO|]. cbn. rewrite Eid.
+      split; [exact Hn|apply OInv_empty_queue; exact HI'].
+    + apply Forall_app. split; [apply Forall_forall; exact HP|apply HI'].
+  - destruct (nth_error (fst st) i) as [O|] eqn:E; [|injection H as <-; split; assumption].
+    ib H y Hy. injection H as <-. destruct y as [O' b']. cbn [fst snd].
+    pose proof (nth_error_In _ _ E) as HOin. rewrite Forall_forall in HO.
+    destruct (HO O HOin) as [Hn HI].
+    pose proof (outsider_tick (r_id O) Hn O O' b' HI Hy) as HI'.
+    pose proof HI' as (_ & Eid & _). split.
+    + apply Forall_upd; [apply Forall_forall; exact HO|]. cbn. rewrite Eid.
+      split; [exact Hn|apply OInv_empty_queue; exact HI'].
+    + apply Forall_app. split; [exact HP|apply HI'].
+  - destruct (nth_error (fst st) i) as [O|] eqn:E; [|injection H as <-; split; assumption].
+    injection H as <-. cbn [fst snd]. split; [|exact HP].
+    destruct (Hok O eq_refl) as (R1 & R2 & R3 & R4 & R5 & R6 & R7).
+    pose proof (nth_error_In _ _ E) as HOin. rewrite Forall_forall in HO.
+    destruct (HO O HOin) as [Hn (_ & _ & I3 & _)].
+    apply Forall_upd; [apply Forall_forall; exact HO|]. rewrite R1. split; [exact Hn|].
+    unfold OInv, votes_ok. rewrite R6, R7. repeat split; try assumption; try lia; try apply R5.
+    + intros id Hid. discriminate.
+    + constructor.
+Qed.
+
+Lemma oacts_OsInv : forall acts st st',
+  OsInv st -> oacts_ok st acts -> oacts_apply st acts = Ok st' -> OsInv st'.
+Proof.
+  induction acts as [|a rest IH]; intros st st' HI Hok H; cbn [oacts_apply] in H.
+  - injection H as <-. exact HI.
+  - destruct Hok as [Ha Hr]. ib H st1 H1.
+    eapply IH; [|apply Hr; exact H1|exact H]. eapply oact_OsInv; eassumption.
+Qed.
+
+(* the pool only grows *)
+Lemma oacts_pool_incl : forall acts st st',
+  oacts_apply st acts = Ok st' -> incl (snd st) (snd st').
+Proof.
+  induction acts as [|a rest IH]; intros st st' H; cbn [oacts_apply] in H.
+  - injection H as <-. apply incl_refl.
+  - ib H st1 H1. apply IH in H. eapply incl_tran; [|exact H].
+    destruct a as [i m|i|i r]; cbn [oact_apply] in H1;
+      destruct (nth_error (fst st) i); try (injection H1 as <-; apply incl_refl).
+    + ib H1 y Hy. injection H1 as <-. cbn. apply incl_appl, incl_refl.
+    + ib H1 y Hy. injection H1 as <-. cbn. apply incl_appl, incl_refl.
+Qed.
+
+(* ------------------------------------------------------------------ *)
+(* one round of the closed cluster: the outsiders act on the pool, then any messages of
+   the pool that outsiders addressed to window members are delivered, the members'
+   queues are copied to the pool, and the majority runs its lock-step round *)
+
+Definition cluster := (raft * list raft * list raft * list msg)%type.
+
+Definition adv_from_pool (pool : list msg) (adv : list (N * msg)) : Prop :=
+  Forall (fun tm => In (snd tm) pool /\ ~ In (m_from (snd tm)) (l :: ids) /\
+                    In (m_to (snd tm)) (l :: ids) /\ fst tm = m_to (snd tm)) adv.
+
+Definition closed_round (acts : list oact) (adv : list (N * msg)) (st : cluster) : Res cluster :=
+  let '(L, Fs, Os, pool) := st in
+  op <- oacts_apply (Os, pool) acts ;;
+  ma <- deliver_all (L, Fs) adv ;;
+  mb <- star_round (fst ma) (snd ma) ;;
+  Ok (fst mb, snd mb, fst op, snd op ++ r_msgs (fst ma) ++ concat (map r_msgs (snd ma))).
+
+Definition round_ok (acts : list oact) (adv : list (N * msg)) (st : cluster) : Prop :=
+  let '(L, Fs, Os, pool) := st in
+  oacts_ok (Os, pool) acts /\
+  forall op, oacts_apply (Os, pool) acts = Ok op -> adv_from_pool (snd op) adv.
+
+Definition CInv (vs : list N) (st : cluster) : Prop :=
+  let '(L, Fs, Os, pool) := st in MInv vs L Fs /\ OsInv (Os, pool).
+
+Theorem closed_round_inv vs acts adv st st' :
+  CInv vs st -> round_ok acts adv st -> closed_round acts adv st = Ok st' -> CInv vs st'.
+Proof.
+  destruct st as [[[L Fs] Os] pool]. intros [HM HO] [Hacts Hadv] H. unfold closed_round in H.
+  ib H op1 Hop. ib H ma Hma. ib H mb Hmb. injection H as <-.
+  pose proof (oacts_OsInv _ _ _ HO Hacts Hop) as [HO1 HP1].
+  specialize (Hadv op1 Hop).
+  assert (Hadv' : Forall (fun tm => adv_ok ids l t (snd tm) /\ PC (snd tm)) adv).
+  { eapply Forall_impl; [|exact Hadv]. intros tm (A & B & C0 & _).
+    rewrite Forall_forall in HP1. pose proof (HP1 _ A) as Pm. split; [|exact Pm].
+    destruct Pm as (_ & _ & _ & _ & P5). apply P5; assumption. }
+  destruct ma as [La Fsa]. destruct mb as [Lb Fsb]. cbn [fst snd] in *.
+  pose proof (deliver_all_MInv _ _ _ _ _ _ HM Hadv' Hma) as HMa.
+  destruct (star_round_MInv _ _ _ _ _ HMa Hmb) as [HMb _].
+  split; [exact HMb|]. split; [exact HO1|]. cbn [snd].
+  destruct HMa as (_ & _ & _ & FLa & FFa).
+  apply Forall_app. split; [exact HP1|]. apply Forall_app. split; [exact FLa|].
+  apply Forall_forall. intros x Hx. apply in_concat in Hx. destruct Hx as (ys & Hys & Hx).
+  apply in_map_iff in Hys. destruct Hys as (F & <- & HF).
+  rewrite Forall_forall in FFa. specialize (FFa F HF). rewrite Forall_forall in FFa. apply FFa, Hx.
+Qed.
+
+Fixpoint closed_rounds (sched : list (list oact * list (N * msg))) (st : cluster) : Res cluster :=
+  match sched with
+  | [] => Ok st
+  | (acts, adv) :: rest => st' <- closed_round acts adv st ;; closed_rounds rest st'
+  end.
+
+Fixpoint sched_ok (sched : list (list oact * list (N * msg))) (st : cluster) : Prop :=
+  match sched with
+  | [] => True
+  | (acts, adv) :: rest =>
+      round_ok acts adv st /\ forall st', closed_round acts adv st = Ok st' -> sched_ok rest st'
+  end.
+
+Theorem closed_rounds_inv vs : forall sched st st',
+  CInv vs st -> sched_ok sched st -> closed_rounds sched st = Ok st' -> CInv vs st'.
+Proof.
+  induction sched as [|[acts adv] rest IH]; intros st st' HI Hok H; cbn [closed_rounds] in H.
+  - injection H as <-. exact HI.
+  - destruct Hok as [Hr Hn]. ib H st1 H1.
+    eapply IH; [|apply Hn; exact H1|exact H]. eapply closed_round_inv; eassumption.
+Qed.
+
+End ClosedRound.
+
+End Closed.
